@@ -131,7 +131,9 @@ func (it *Interp) pickNext() *goroutine {
 	if s.points > s.maxPoints {
 		panic(unsupported(fmt.Sprintf("more than %d scheduling points on one path", s.maxPoints)))
 	}
-	if len(rs) == 1 {
+	if len(rs) == 1 || it.mstate.fixedSched {
+		// fixedSched: the harness declared that the order of its goroutines is not what it
+		// is about (verifFixedSchedule): always the first runnable one
 		return rs[0]
 	}
 	return rs[it.ex.chooseFree("sched", len(rs))]
